@@ -533,7 +533,7 @@ func genCase(t *rapid.T) *Case {
 
 func TestRandomGraphs(t *testing.T) {
 	ev.SetChecks(ev.Scale(3000, 400000))
-	rapid.Check(t, func(rt *rapid.T) {
+	ev.Check(t, func(rt *rapid.T) {
 		c := genCase(rt)
 		cy, di, sp, am := structure(c)
 		ev.Watch("random", func() any { return c })
@@ -600,6 +600,9 @@ func TestReplay(t *testing.T) {
 	}
 	if err != nil {
 		t.Fatal(err)
+	}
+	if ev.ReplayFuzz(t, rf, fuzzProps, nil) {
+		return
 	}
 	var h History
 	if err := json.Unmarshal(rf.Case, &h); err == nil && h.Kind == "history" {
